@@ -11,8 +11,8 @@ GROW = ["ins:1,ins:2,ins:3|ins:4,ins:5,era:1|find:3,ins:6,era:4;trav,size", "ins
 
 def run(ctx):
     q = ctx.quick()
-    n = 1 if q else 8
-    deep = [("dfs", 3000 if q else 300000, 2 if q else 3)]
+    n = 0 if q else 8
+    deep = [("dfs", 1500 if q else 300000, 2 if q else 3)]
     ps = SC.PROGRAMS + GROW + [SC.gen_program(ctx.rng, SC.VOC_FULL, keys=4) for _ in range(n)]
     jobs = make_jobs(ctx, "set_hash", STD, ps, group_of=lambda v: "std") + make_jobs(ctx, "set_hash", REPL, ps, group_of=lambda v: "repl")
     jobs += make_jobs(ctx, "set_hash", STD, SC.DEEP[:2], group_of=lambda v: "std", strat=deep) + make_jobs(ctx, "set_hash", REPL, SC.DEEP[:2], group_of=lambda v: "repl", strat=deep)
